@@ -11,6 +11,9 @@ type valCase struct {
 	// trailAll: trailing data cases for every encoding; otherwise only for the
 	// one-at-a-time subset of the encodings
 	trailAll bool
+	// fam: "" for the node-count enumeration and the grid, "order" for the element
+	// order family (its own section)
+	fam string
 }
 
 type spec struct {
@@ -91,6 +94,69 @@ func hasBigString(v *V) bool {
 		}
 	})
 	return big
+}
+
+// ---------------------------------------------------------------------------
+// element order family: containers whose members are pairwise distinct integers in
+// a non monotonic order (V.Seq), so that "gives back that value" is judged for the
+// position of every element of an array and for the key of every value of a map.
+// The lengths surround the points where the number of decimal digits of an index
+// or the number of bytes of a counter changes (9|10, 99|100, 255|256) and the
+// points where the textual and the numeric order of the indexes differ first
+// (10 < 2, 100 < 11, 110 < 12); the containers stand alone and below an object
+// key, inside an array, next to a second container of the same kind and two
+// levels down.
+
+var seqLens = []int{2, 3, 9, 10, 11, 12, 19, 20, 21, 99, 100, 101, 110, 111, 255, 256, 257}
+
+type seqWrap struct {
+	name string
+	// all: every container header form of the format; otherwise the shortest encoding
+	all bool
+	fn  func(x, y *V) *V // y: a second container of the same kind, one element longer
+}
+
+var seqWraps = []seqWrap{
+	{"alone", true, func(x, y *V) *V { return x }},
+	{"in-object", true, func(x, y *V) *V { return vMap([]string{"a"}, []*V{x}) }},
+	{"in-array", true, func(x, y *V) *V { return vArr(x) }},
+	{"siblings-in-array", false, func(x, y *V) *V { return vArr(x, y) }},
+	{"siblings-in-object", false, func(x, y *V) *V { return vMap([]string{"a", "b"}, []*V{x, y}) }},
+	{"object-array", false, func(x, y *V) *V { return vMap([]string{"a"}, []*V{vArr(vStr(1), x, vStr(1))}) }},
+	{"array-object", false, func(x, y *V) *V { return vArr(vMap([]string{"a"}, []*V{x})) }},
+}
+
+// orderCases: every length x {array, object} x every nesting the format can express.
+func (sp *spec) orderCases() []valCase {
+	if sp.custom != nil {
+		return nil
+	}
+	var out []valCase
+	admissible := func(v *V) bool {
+		ok := sp.rootOK(v)
+		v.walk(func(n *V) {
+			if (n.T == "arr" && !sp.arrays) || (n.T == "map" && !sp.maps) || !sp.leafOK(n) {
+				ok = false
+			}
+		})
+		return ok
+	}
+	for _, n := range seqLens {
+		for _, w := range seqWraps {
+			for _, mk := range []func(int) *V{vSeqArr, vSeqMap} {
+				v := w.fn(mk(n), mk(n+1))
+				if !admissible(v) {
+					continue
+				}
+				m := mode{sum: true}
+				if !w.all {
+					m.canon = true
+				}
+				out = append(out, valCase{v: v, m: m, fam: "order"})
+			}
+		}
+	}
+	return out
 }
 
 var allSpecs []*spec
@@ -283,6 +349,7 @@ func (sp *spec) cases(thorough bool) []valCase {
 			}
 		}
 	}
+	out = append(out, sp.orderCases()...)
 	return out
 }
 
